@@ -12,7 +12,9 @@ const FORMATS: [(&str, &str, &str); 3] = [("jpeg", "image/jpeg", "no_manifest.jp
 
 fn settings_json() -> Value { json!({"verify": {"remote_manifest_fetch": false}}) }
 fn marker(vid: usize, m: usize, kind: &str) -> String { format!("VHMARK-{vid:05}-{m}-{kind}-payload") }
-fn label_of(kind: &str, m: usize) -> String { match kind { "c1" => format!("org.vh.c1m{m}"), "c2" => format!("org.vh.c2m{m}"), "actions" => "c2pa.actions.v2".into(), _ => "c2pa.hash.data".into() } }
+/// the two custom assertions of a manifest share one label: they are instances L and L__1 of it
+fn label_of(kind: &str, m: usize) -> String { match kind { "c1" => format!("org.vh.cm{m}"), "c2" => format!("org.vh.cm{m}__1"), "actions" => "c2pa.actions.v2".into(), _ => "c2pa.hash.data".into() } }
+fn base_label(m: usize) -> String { format!("org.vh.cm{m}") }
 fn count(hay: &[u8], needle: &[u8]) -> usize { if needle.is_empty() || hay.len() < needle.len() { 0 } else { hay.windows(needle.len()).filter(|w| *w == needle).count() } }
 
 fn read(mime: &str, bytes: &[u8]) -> Value {
@@ -22,7 +24,7 @@ fn read(mime: &str, bytes: &[u8]) -> Value {
             let active = r.active_label().unwrap_or("").to_string();
             let mut labels = serde_json::Map::new();
             if let Some(ms) = rep["manifests"].as_object() { for (k, m) in ms {
-                labels.insert(k.clone(), json!({"title": m["title"], "assertions": m["assertions"].as_array().map(|a| a.iter().map(|x| x["label"].clone()).collect::<Vec<_>>()).unwrap_or_default(), "redactions": m["redactions"]}));
+                labels.insert(k.clone(), json!({"title": m["title"], "assertions": m["assertions"].as_array().map(|a| a.iter().map(|x| { let l = x["label"].as_str().unwrap_or("").to_string(); let i = x["instance"].as_u64().unwrap_or(0); json!(if i > 0 && !l.contains("__") { format!("{l}__{i}") } else { l }) }).collect::<Vec<_>>()).unwrap_or_default(), "redactions": m["redactions"]}));
             } }
             json!({"state": state_str(&r), "failures": failure_codes(&r), "active": active, "manifests": labels})
         }
@@ -45,7 +47,7 @@ pub fn replay(_args: &[String]) {
             for (ji, req) in reqs.iter().enumerate() {
                 let j = ji + 1;
                 let own_label = format!("urn:c2pa:{:08x}-0000-4000-8000-{:012x}", vid, j);
-                let mut assertions = vec![json!({"label": label_of("c1", j), "data": {"marker": marker(vid, j, "c1")}}), json!({"label": label_of("c2", j), "data": {"marker": marker(vid, j, "c2")}})];
+                let mut assertions = vec![json!({"label": base_label(j), "data": {"marker": marker(vid, j, "c1")}}), json!({"label": base_label(j), "data": {"marker": marker(vid, j, "c2")}})];
                 let mut red: Vec<String> = vec![];
                 let mut actions = vec![];
                 if j == 1 { actions.push(json!({"action": "c2pa.created", "digitalSourceType": "http://cv.iptc.org/newscodes/digitalsourcetype/digitalCapture"})); }
@@ -92,7 +94,9 @@ pub fn replay(_args: &[String]) {
         let mut posthoc = Value::Null;
         let all_signed = levels.len() == reqs.len() && levels.iter().all(|l| l["sign"] == "ok");
         if all_signed && reqs.len() >= 2 {
-            if let Some(t) = present.iter().find(|t| (t["m"].as_u64().unwrap() as usize) < reqs.len()) {
+            let redacted_ms: Vec<u64> = reqs.iter().flat_map(|r| r.as_array().unwrap().iter().map(|t| t["m"].as_u64().unwrap())).collect();
+            let cand = present.iter().find(|t| (t["m"].as_u64().unwrap() as usize) < reqs.len() && redacted_ms.contains(&t["m"].as_u64().unwrap())).or_else(|| present.iter().find(|t| (t["m"].as_u64().unwrap() as usize) < reqs.len()));
+            if let Some(t) = cand {
                 let mk = marker(vid, t["m"].as_u64().unwrap() as usize, t["kind"].as_str().unwrap());
                 let mut bytes = cur.clone();
                 if let Some(p) = bytes.windows(mk.len()).position(|w| w == mk.as_bytes()) { for b in &mut bytes[p..p + mk.len()] { *b = b'X'; } }
